@@ -17,6 +17,12 @@ fn code(o: PushInterpreterState) -> i128 {
     }
 }
 
+/// what the growth cap is documented to watch: the sum of the nine main stack depths (our own sum, not PushState::size)
+fn own_size(s: &pushr::push::state::PushState) -> u128 {
+    (s.bool_stack.size() + s.code_stack.size() + s.exec_stack.size() + s.float_stack.size() + s.int_stack.size()
+        + s.name_stack.size() + s.bool_vector_stack.size() + s.float_vector_stack.size() + s.int_vector_stack.size()) as u128
+}
+
 fn run(c: &Sx) -> Sx {
     let go = || -> Option<Sx> {
         let c = c.as_l()?;
@@ -39,14 +45,14 @@ fn run(c: &Sx) -> Sx {
         let o2;
         loop {
             if executed > limit { o2 = 1; break; }
-            let before = b.size() as u128;
+            let before = own_size(&b);
             let snapshot = if b.exec_stack.size() == 0 { Some(state_to_sx(&b)) } else { None };
             if PushInterpreter::step(&mut b, &mut is2, &icache) {
                 if let Some(s0) = snapshot { if s0 != state_to_sx(&b) { empty_step_changes = 1; } }
                 o2 = 0; break;
             }
             executed += 1;
-            if (b.size() as u128) > before + cap { o2 = 3; break; }
+            if own_size(&b) > before + cap { o2 = 3; break; }
         }
         Some(Sx::L(vec![
             Sx::L(vec![Sx::Z(o), state_to_sx(&a)]),
